@@ -305,6 +305,11 @@ func vpRegexMatches(pattern, text string) bool {
 // event; natively the write happens and is captured by the replay driver).
 func vpForbidden(what string) {}
 
+// vpUnmodelled: called by a harness-Go library model on an input it does not cover; the executor
+// abandons the path as inconclusive (exit 2) instead of guessing. Never reached natively (the real
+// library runs there).
+func vpUnmodelled(what string) {}
+
 // vpSetClock pins the executor's clock model: 0 arbitrary elapsed times (default), 1 time.Since
 // reports a very long time, 2 time.Since reports zero. No effect natively.
 func vpSetClock(mode int) {}
